@@ -144,8 +144,9 @@ Mangle == /\ phase \in {"build", "parens"} /\ toks # <<>>
 FixedFilters == {<<>>, <<TAtom(1)>>, <<TAtom(3), TOr, TAtom(5)>>}
 Prune == /\ phase = "build" /\ Mode = "prune" /\ toks = <<>>
          /\ toks' \in FixedFilters
-         /\ \E w \in {NoneOpt} \cup (SUBSET {"nsa", "nsb", "nsd", "nsz"} \ {{}}),
-               b \in {NoneOpt} \cup (SUBSET {"nsa", "nsc", "nsz"} \ {{}}) :
+         \* (the extreme selections too: every namespace whitelisted, every namespace blacklisted)
+         /\ \E w \in {NoneOpt} \cup (SUBSET {"nsa", "nsb", "nsd", "nsz"} \ {{}}) \cup {KnownNs},
+               b \in {NoneOpt} \cup (SUBSET {"nsa", "nsc", "nsz"} \ {{}}) \cup {KnownNs} :
                  /\ (w = NoneOpt \/ b = NoneOpt)          \* -w and -b are mutually exclusive
                  /\ wopt' = w /\ bopt' = b
          /\ aopt' \in {NoneOpt} \cup (SUBSET {"a1", "a3", "a4", "zz", ":all"} \ {{}})
